@@ -24,6 +24,14 @@ typing of bytecode (`Spec/Balanced.lean`): a function is *balanced* when an anno
                           in the machine (`Model/LegacyBalance.lean`);
 * the generator theorems (`gen_balanced…`) and the VM-level statements (`RunAtRest`,
   `EvalEmptyNil`, `OneAtATime`) follow further down;
+* `calling_contract`     — the VM model refines the stack-effect machine across nested runs;
+* `run_at_rest_of_invariant`, `run_at_rest_reachable`
+                        — on the VM model: from every state that satisfies the run-time invariant
+                          (in particular: every state reachable from the fresh interpreter by
+                          texts of the generator's grammar that returned values), a text of the
+                          grammar that returns a value leaves the interpreter at rest. `RunAtRest`
+                          over EVERY state at rest is not provable without that invariant and
+                          stays a `def`; `OneAtATime` stays a `def` (`one_at_a_time_partial`);
 * the last section is about RE-ENTRANCY: compiled code is shared by all activations and carries
   no run-time state (`code_writes_exact`, a regenerated table), and the static scope count of
   break/continue is right for every activation (`break_lands_at_activation_depth`,
@@ -39,6 +47,8 @@ import ZygoVerif.Proofs.GenBalanced
 import ZygoVerif.Proofs.GenBalancedAll
 import ZygoVerif.Proofs.VMRest
 import ZygoVerif.Proofs.VMRefine
+import ZygoVerif.Proofs.RunPrim
+import ZygoVerif.Proofs.RunMain
 import ZygoVerif.Proofs.Reentrant
 import ZygoVerif.Generated.InstrSet
 import ZygoVerif.Generated.CodeWrites
@@ -520,14 +530,167 @@ theorem exec_refines_partial (i : Instr)
       | _ => True) : Refine.StepRefines i :=
   Refine.exec_refines_partial i h
 
-/-- **run_at_rest_partial**: `RunAtRest` for the empty text (`eval_empty_nil`). What the general
-statement needs on top of the theorems above: (1) the refinement "every `VM.exec` step is a
-`Bal.CStep`": proved per instruction (`exec_refines_partial`) except for the call instructions;
-(2) the calling contract for nested runs by induction on the call depth
-(`operand_returns_one_value` and `generated_function_balanced` are the per-function halves: a
-helper / a generated function run on top of ANY caller stack returns with exactly one value and
-the caller's depths); (3) `GenBalanced` for all forms: `gen_balanced`. Until (2) is done the
-statement is held, on the real interpreter, by the depth oracle of channel `rest` on every run. -/
+/-! ## The calling contract on the VM model (refinement across nested runs) -/
+
+open ZygoVerif.RunInv in
+/-- **calling_contract** (`RunInv.allSpec'`, Proofs/RunCall2.lean + RunPrim.lean) — by induction on
+the fuel over ALL thirteen functions of the VM's mutual block, from any state that satisfies the
+table invariant `RunInv.WF` (every function object of index ≥ 2 — templates, closures, the
+helpers of `EvalCallExpression`/`Force` — is a VERIFIED function with generated-code side
+conditions; every stored value contains no stack-mark and only ids of such functions; the
+expressions of lazy arguments are in the covered grammar), whenever the function returns normally:
+* `exec` of ANY instruction of a `Running` loop (`RunInv.Running`: the stack of activations — the
+  top one described by the checker's invariant `Bal.Inv` at its pc, every suspended caller by
+  `Bal.Inv` of the state it resumes in, the bottom one on the `Base` the loop started on) leaves
+  the loop `Running` — `callExpr` of a compiled function pushes an activation entered with exactly
+  its formals' worth of operands, `ret` pops one and resumes the caller at the caller's depths
+  with ONE value pushed — or `Finished`;
+* `runLoop` ends `Finished`: one value on the base data, the base scope stack (as a list), the base
+  address stack; `run` returns that value and leaves the base stacks;
+* `evalCallExpr`, `builtin` (incl. `apply`, `map`, `force`, `substitute`), `applyFn`, `mapArr`,
+  `mapList`, `forceLazy` leave data (as the checker sees it), scope stack, address stack, current
+  function, pc and the set-aside stacks EXACTLY as they were and return a storable value;
+  `callUser` pops its operands and pushes one value; `prepareArgs` pushes one value per operand;
+* the tables only grow and `WF` holds again — compiling at run time only adds verified functions
+  (`RunInv.wf_runGen`: `gen_balanced` for the whole grammar + `GenCodeOK`).
+This is the refinement `VM.exec ⊑ Bal.CStep` across nested runs (`ExecRefines` for `callArr`,
+`callExpr`, `ret` included), for normal returns. -/
+theorem calling_contract : ∀ n, AllSpec n := allSpec'
+
+open ZygoVerif.RunInv in
+/-- Calling a function value from any well-formed state (`Apply`, and through it `map`): the
+callee runs to its `ret` and everything the caller had — data stack, scopes, return addresses,
+set-aside stacks — is as before; the result is a storable value. -/
+theorem apply_leaves_nothing_behind (n : Nat) (f : Val) (args : List Val) (s s' : St) (v : Val) (hw : WF s)
+    (hpc : s.pc = -1) (hf : vok s.fns.length f = true) (ha : ∀ a ∈ args, vok s.fns.length a = true)
+    (h : (applyFn n f args).run s = (.ok v, s')) :
+    s'.data.map Refine.cellOf = s.data.map Refine.cellOf ∧ s'.linear = s.linear ∧ s'.addr = s.addr ∧
+      s'.suspended = s.suspended ∧ WF s' := by
+  obtain ⟨hk, _⟩ := (allSpec' n).apply f args s s' v hw hpc hf ha h
+  exact ⟨hk.same.data, hk.same.linear, hk.same.addr, hk.same.susp, hk.wf⟩
+
+open ZygoVerif.RunInv in
+/-- Evaluating an operand (`EvalCallExpression`: compile at run time, run the helper in a nested
+`Run`, restore) leaves nothing behind. -/
+theorem operand_leaves_nothing_behind (n : Nat) (e : Expr) (s s' : St) (v : Val) (hw : WF s) (hok : okL e = true)
+    (h : (evalCallExpr n e).run s = (.ok v, s')) :
+    s'.data.map Refine.cellOf = s.data.map Refine.cellOf ∧ s'.linear = s.linear ∧ s'.addr = s.addr ∧
+      s'.curfunc = s.curfunc ∧ s'.pc = s.pc ∧ s'.suspended = s.suspended ∧ WF s' := by
+  obtain ⟨hk, _⟩ := (allSpec' n).eval e s s' v hw hok h
+  exact ⟨hk.same.data, hk.same.linear, hk.same.addr, hk.same.cur, hk.same.pc, hk.same.susp, hk.wf⟩
+
+open ZygoVerif.RunInv in
+/-- the fresh interpreter satisfies the table invariant (non-vacuity of `WF`) -/
+theorem wf_initSt : WF initSt := by
+  refine ⟨fun id h2 hl => ?_, by decide, rfl, ?_, (fun a ha => by cases ha), (fun lz hlz => by cases hlz), (fun c hc => by cases hc)⟩
+  · have : initSt.fns.length = 2 := rfl
+    omega
+  · intro sc hsc p hp
+    simp only [initSt, List.mem_cons, List.mem_nil_iff, or_false] at hsc
+    subst hsc
+    simp only [List.mem_append, List.mem_cons, List.mem_nil_iff, or_false, List.mem_map] at hp
+    rcases hp with (rfl | rfl) | ⟨nm, _, rfl⟩ <;> rfl
+
+/-! ### run_at_rest: the top-level text as the bottom activation -/
+
+/-- The states an interpreter is in between texts, **as far as the theorem below covers them**:
+the fresh interpreter, and every state reached from it by texts of the model generator's grammar
+(`Bal.okLs`: all core forms, loops, break/continue, functions, closures, tail calls) **that
+returned a value**. NOT covered: states after a text that ended in an error (the calling contract
+is about normal returns; that `Run`'s error path restores the invariant is C01/C05 territory and
+is not proved here) and states after texts outside the grammar. -/
+inductive ServedState : St → Prop
+  | init : ServedState initSt
+  | text {s s' : St} {fuel : Nat} {es : List Expr} {v : String} {tr : List String} {d : String} {alive : Bool} :
+      ServedState s → okLs es = true → runText fuel es s = (Outcome.done "ok" v tr d, s', alive) → ServedState s'
+
+open ZygoVerif.RunInv in
+/-- the fresh interpreter: table invariant, `mainfunc` empty and compiled, at rest -/
+theorem served_initSt : Served initSt :=
+  ⟨wf_initSt, ⟨rfl, AllOK.nil _, idsIn_nil _ _, rfl⟩, ⟨rfl, rfl, rfl, rfl, rfl, by decide⟩⟩
+
+open ZygoVerif.RunInv in
+/-- **run_at_rest for every state that satisfies the invariant** (`RunInv.Served`: `RunInv.WF`,
+`RunInv.MainOK`, `AtRest`): a text of the grammar that returns a value leaves the interpreter
+at rest — data stack empty, only the global scope, no return address, no loop record, pc at the
+end of `mainfunc` — and the invariant holds again. The text runs as code APPENDED to `mainfunc`,
+from the old end: it is the bottom activation of the outermost loop (`RunInv.Base.main`: no return
+address; it ends by running off its end). Its annotation is the fragment of `gen_balanced`
+PLACED behind the old code (`RunInv.main_stepVerified`: the fragment calculus is generic in the
+position, so nothing has to be shifted and nothing is needed about the old code but that its
+loop ids are unique); every step of the loop keeps "`mainfunc` is at the bottom of the stack of
+activations" (`RunInv.holds_step_ext`, from `calling_contract`); the loop can only stop at the
+end of `mainfunc` (`RunInv.main_end`), where the fragment's final state says: one value, no
+scope, no open region. -/
+theorem run_at_rest_of_invariant (fuel : Nat) (es : List Expr) (s s' : St) (v : String) (tr : List String) (d : String)
+    (alive : Bool) (hs : Served s) (hok : okLs es = true)
+    (h : runText fuel es s = (Outcome.done "ok" v tr d, s', alive)) : AtRest s' ∧ Served s' :=
+  ⟨(runText_ok fuel es s s' v tr d alive hs hok h).rest, runText_ok fuel es s s' v tr d alive hs hok h⟩
+
+open ZygoVerif.RunInv in
+theorem served_of_servedState {s : St} (h : ServedState s) : Served s := by
+  induction h with
+  | init => exact served_initSt
+  | text _ hok hrun ih => exact (run_at_rest_of_invariant _ _ _ _ _ _ _ _ ih hok hrun).2
+
+/-- `RunAtRest` restricted to the states reachable from the fresh interpreter by earlier texts of
+the grammar that returned values, and to texts of the grammar. -/
+def RunAtRestReachable : Prop :=
+  ∀ (fuel : Nat) (es : List Expr) (s s' : St) (v : String) (tr : List String) (d : String) (alive : Bool),
+    ServedState s → okLs es = true → runText fuel es s = (Outcome.done "ok" v tr d, s', alive) → AtRest s'
+
+/-- **run_at_rest_reachable** (proved): whatever texts of the grammar an interpreter has evaluated
+to values since it was created — any number of them, defining functions, closures, loops, tail
+calls, calling them at any depth, with any fuel — the next text of the grammar that returns a
+value leaves it at rest. This is NOT the full `RunAtRest`: that one quantifies over EVERY state
+with empty stacks and the pc at the end (`AtRest`), including states whose function table holds
+unbalanced code bound to a name; for those it is not provable (the table invariant `RunInv.WF`
+is exactly what is missing), and states after erroneous texts are not covered either (see
+`ServedState`). -/
+theorem run_at_rest_reachable : RunAtRestReachable := by
+  intro fuel es s s' v tr d alive hs hok h
+  exact (run_at_rest_of_invariant fuel es s s' v tr d alive (served_of_servedState hs) hok h).1
+
+/-- an idle interpreter does not grow: every state between texts is at rest -/
+theorem servedState_at_rest {s : St} (h : ServedState s) : AtRest s := (served_of_servedState h).rest
+
+/-- non-vacuity: the empty text, served by the fresh interpreter, returns a value; the state after
+it is a `ServedState` -/
+example : ∃ s', runText 2 [] initSt = (Outcome.done "ok" "nil" [] (depths initSt), s', true) ∧ ServedState s' := by
+  obtain ⟨s', h, _⟩ := eval_empty_nil initSt 0 ⟨rfl, rfl, rfl, rfl, rfl, by decide⟩
+  exact ⟨s', h, ServedState.text ServedState.init rfl h⟩
+
+theorem okLs_append : ∀ (a b : List Expr), okLs a = true → okLs b = true → okLs (a ++ b) = true
+  | [], _, _, hb => hb
+  | e :: es, b, ha, hb => by
+    simp only [okLs, Bool.and_eq_true] at ha
+    simp only [List.cons_append, okLs, Bool.and_eq_true]
+    exact ⟨ha.1, okLs_append es b ha.2 hb⟩
+
+/-- **one_at_a_time_rest_partial** (the depth half of `OneAtATime`, on the VM model): for an
+interpreter in a `ServedState`, evaluating two texts of the grammar together, or one after the
+other, leaves it at rest — and in a `ServedState` again — in all three evaluations that return
+a value. That the VALUES agree (`OneAtATime`) is not proved: the two runs allocate function ids
+in different orders (templates of the second text before / after the run-time helpers of the
+first), so it needs a simulation up to renaming of function ids. -/
+theorem one_at_a_time_rest_partial (fuel : Nat) (es₁ es₂ : List Expr) (s : St) (hs : ServedState s)
+    (h1 : okLs es₁ = true) (h2 : okLs es₂ = true)
+    {v tr d s' a v₁ tr₁ d₁ s₁ a₁ v₂ tr₂ d₂ s₂ a₂}
+    (hboth : runText fuel (es₁ ++ es₂) s = (Outcome.done "ok" v tr d, s', a))
+    (hfst : runText fuel es₁ s = (Outcome.done "ok" v₁ tr₁ d₁, s₁, a₁))
+    (hsnd : runText fuel es₂ s₁ = (Outcome.done "ok" v₂ tr₂ d₂, s₂, a₂)) :
+    AtRest s' ∧ AtRest s₁ ∧ AtRest s₂ ∧ ServedState s' ∧ ServedState s₂ :=
+  have q1 : ServedState s₁ := ServedState.text hs h1 hfst
+  have q2 : ServedState s₂ := ServedState.text q1 h2 hsnd
+  have q : ServedState s' := ServedState.text hs (okLs_append es₁ es₂ h1 h2) hboth
+  ⟨servedState_at_rest q, servedState_at_rest q1, servedState_at_rest q2, q, q2⟩
+
+/-- **run_at_rest_partial**: `RunAtRest` for the empty text and EVERY state at rest
+(`eval_empty_nil`). For non-empty texts see `run_at_rest_reachable` / `run_at_rest_of_invariant`:
+proved for every state that satisfies the run-time invariant, in particular every state reachable
+from the fresh interpreter by texts of the grammar that returned values. The full `RunAtRest`
+(every state with empty stacks, whatever its function table holds) is not provable without the
+table invariant and stays a `def`. -/
 theorem run_at_rest_partial (s : St) (fuel : Nat) (h : AtRest s) :
     ∀ s' v tr d alive, runText (fuel + 2) [] s = (Outcome.done "ok" v tr d, s', alive) → AtRest s' := by
   intro s' v tr d alive hr
